@@ -34,6 +34,15 @@ def load(path, name):
 
 def main():
     req = json.load(sys.stdin)
+    real_out = sys.stdout
+    sys.stdout = open(os.devnull, 'w')       # the code under test prints (tracebacks of the request loop)
+    try:
+        run(req, real_out)
+    finally:
+        sys.stdout = real_out
+
+
+def run(req, real_out):
     tier, seed, args = req.get('tier', 'quick'), int(req.get('seed', 0)), req['args']
     cmod = RN.load_module(os.path.join(VERIF, args['contract_file']))
     gmod = load(os.path.join(VERIF, 'bounded', args['gens'] + '.py'), 'gens_' + args['gens'])
@@ -56,7 +65,7 @@ def main():
                 out = RN.evaluate(c, case.get('case', 'contract'), ns, fn, case.get('self'), case.get('args', {}),
                                   ghosts=case.get('ghosts'), call=case.get('call') or (lambda s=case.get('self'), a=case.get('args', {}): (fn(s, **a) if s is not None else fn(**a))))
             except Exception as e:      # harness failure: reported as checker error by the driver
-                json.dump({'error': f'{key} {label}: {type(e).__name__}: {e} {traceback.format_exc()[-800:]}'}, sys.stdout)
+                json.dump({'error': f'{key} {label}: {type(e).__name__}: {e} {traceback.format_exc()[-800:]}'}, real_out)
                 return
             if not out.get('pre_ok'):
                 skipped += 1
@@ -73,7 +82,7 @@ def main():
                                        'observed': {k: out.get(k) for k in ('outcome', 'result', 'exc', 'clauses')}})
         bounds.append(f'{key}: {n} cases ({getattr(gen, "bound", gen.__doc__ or "")})')
     json.dump({'evaluations': evals, 'distinct': len(distinct), 'bound': '; '.join(bounds), 'exhaustive': False,
-               'samples': samples, 'violations': violations, 'skipped_pre': skipped}, sys.stdout, default=repr)
+               'samples': samples, 'violations': violations, 'skipped_pre': skipped}, real_out, default=repr)
 
 
 if __name__ == '__main__':
